@@ -181,6 +181,10 @@ func runSim(w *Workload, prep [][]*Prepared, warm []*Prepared, cfg RunCfg, keepE
 // success is not.
 type Admissible struct {
 	alone      [][]Outcome
+	// textStable: the call fails alone with an error whose text is the same under the canonical
+	// and under the reversed iteration order and in both alone passes: the text is then part of
+	// "the same result" and is compared exactly
+	textStable [][]bool
 	seqClasses [][]map[string]bool
 	orders     int
 	// SeqDeadlock: some purely sequential execution of the workload blocked forever
@@ -198,6 +202,9 @@ func (a *Admissible) has(t, i int, o Outcome) bool {
 	if o.Class == "ok" || o.Class == "not_run" {
 		return false
 	}
+	if o.Class == "error" && al.Class == "error" && a.textStable[t][i] {
+		return o.Text == al.Text
+	}
 	return o.Class == al.Class || a.seqClasses[t][i][o.Class]
 }
 
@@ -206,6 +213,11 @@ func (a *Admissible) addSeq(w *Workload, t, i int, o Outcome, how string) {
 	al := a.alone[t][i]
 	if al.Class != "ok" {
 		if o.Class != "ok" {
+			if o.Class == "error" && al.Class == "error" && a.textStable[t][i] && o.Text != al.Text {
+				// the error is a different one on a shared instance even sequentially: the text is not
+				// a function of the call alone, stop comparing it
+				a.textStable[t][i] = false
+			}
 			a.seqClasses[t][i][o.Class] = true
 			return
 		}
@@ -300,10 +312,11 @@ func permutations(n int) [][]int {
 }
 
 func computeAdmissible(w *Workload, prep [][]*Prepared, warm []*Prepared, seed uint64, merges int) *Admissible {
-	a := &Admissible{alone: make([][]Outcome, len(w.Tasks)), seqClasses: make([][]map[string]bool, len(w.Tasks))}
+	a := &Admissible{alone: make([][]Outcome, len(w.Tasks)), seqClasses: make([][]map[string]bool, len(w.Tasks)), textStable: make([][]bool, len(w.Tasks))}
 	for t := range w.Tasks {
 		a.seqClasses[t] = make([]map[string]bool, len(w.Tasks[t]))
 		a.alone[t] = make([]Outcome, len(w.Tasks[t]))
+		a.textStable[t] = make([]bool, len(w.Tasks[t]))
 		for i := range w.Tasks[t] {
 			a.seqClasses[t][i] = map[string]bool{}
 			// (i) alone, on a fresh private instance (cannot block: nothing was used before)
@@ -312,10 +325,24 @@ func computeAdmissible(w *Workload, prep [][]*Prepared, warm []*Prepared, seed u
 	}
 	// (i') alone again, in the reverse order: "alone" must not depend on what other fresh
 	// instances did earlier in the process (package-level pools, memos)
+	reversed := func(site string, n int, content uint64) []int {
+		p := make([]int, n)
+		for k := range p {
+			p[k] = n - 1 - k
+		}
+		return p
+	}
 	for t := len(w.Tasks) - 1; t >= 0; t-- {
 		for i := len(w.Tasks[t]) - 1; i >= 0; i-- {
-			o := execOp(newEnv(w.Codec), prep[t][i])
 			al := a.alone[t][i]
+			if al.Class == "error" {
+				// second alone pass under the REVERSED iteration order at every map/Range site: an error
+				// text that survives is independent of iteration order
+				simrt.SetPermHook(reversed)
+			}
+			o := execOp(newEnv(w.Codec), prep[t][i])
+			simrt.SetPermHook(nil)
+			a.textStable[t][i] = al.Class == "error" && o.Class == "error" && o.Text == al.Text
 			if o.Class != al.Class || (o.Class == "ok" && o.Canon != al.Canon) {
 				if a.SeqViolation == nil {
 					a.SeqViolation = &Violation{Class: "result_differs", Task: t, Op: i, OpSpec: w.Tasks[t][i].String(),
